@@ -29,6 +29,7 @@ BUDGET = {"quick": {"cases": 48 * 18, "shards": 16}, "thorough": {"cases": 48 * 
 MIN = {"quick": {"evaluations": 700, "nontrivial": 250, "counters": {"c18_snapshots": 2000, "c18_ctor_snapshots": 700}},
        "thorough": {"evaluations": 20000, "nontrivial": 800, "counters": {"c18_snapshots": 60000, "c18_ctor_snapshots": 20000}}}
 ASSUMPTIONS = ["integer encodings are used only where every value is integral (contexts always; rewards when binary)",
+               "float32 is used for contexts only, and only under Radius / KNearest / LSHNearest (distances and projections upcast first)",
                "a Series as contexts is one column when there are several decisions and one row when there is one (the library's documented disambiguation)"]
 
 ENCODINGS = ["nd_c", "nd_f", "int", "object", "view", "series", "series_shift", "frame", "list_mixed", "narrow", "narrow", "f4"]
@@ -115,6 +116,11 @@ def call(m, name, e, b=None, X=None):
 
 
 def run_std(rs, ctx, l, p, e):
+    if e == "f4" and p not in ("radius", "knn", "lsh"):
+        # single-precision contexts are used where the library upcasts before it computes (distances, hash projections);
+        # k-means, trees and the ridge algebra run in the precision they are given, which is numpy's / scikit-learn's documented
+        # behaviour and not a container effect
+        e = "narrow"
     cfg = gen.gen_cfg(rs, l, p, labels=gen.pick(rs, ["int", "str", "float"]), n_arms=int(rs.integers(2, 5)),
                       with_probs=bool(rs.integers(2)))
     nf = int(gen.pick(rs, [1, 2, 3]))
